@@ -931,7 +931,7 @@ func solveUnit(res *UnitResult, opt Options) {
 				}
 				var r1 SolveResult
 				if quick {
-					qt := 6 * time.Second
+					qt := 8 * time.Second
 					if opt.Timeout < qt {
 						qt = opt.Timeout
 					}
@@ -967,10 +967,10 @@ func solveUnit(res *UnitResult, opt Options) {
 						done = fs != "" && try(ginstScriptLevel(fs, true, true, 0), " +focused+ground-instances/uf/light", true)
 					}
 					if !done {
-						done = try(ginstScriptOpt(script, true, true), " +ground-instances/uf", true)
+						done = fs != "" && try(ginstScriptOpt(fs, true, true), " +focused+ground-instances/uf", true)
 					}
 					if !done {
-						done = fs != "" && try(ginstScriptOpt(fs, true, true), " +focused+ground-instances/uf", true)
+						done = try(ginstScriptOpt(script, true, true), " +ground-instances/uf", true)
 					}
 				}
 			}
